@@ -662,6 +662,9 @@ CONT = {'exp': (4.5, 4.5), 'exp2': (4.5, 4.5), 'exp10': (4.5, 4.5), 'expm1': (4.
         'sin': (4.5, 4.5), 'cos': (4.5, 4.5), 'tan': (4.5, 4.5), 'asin': (4.5, 4.5), 'acos': (4.5, 4.5), 'atan': (4.5, 4.5), 'sinh': (4.5, 4.5), 'cosh': (4.5, 4.5), 'tanh': (4.5, 4.5),
         'asinh': (4.5, 4.5), 'acosh': (4.5, 4.5), 'atanh': (4.5, 4.5), 'cbrt': (4.5, 4.5), 'erf': (4.5, 128), 'erfc': (128, 65536), 'lgamma': (8, None)}
 ABS_FLOOR = {'lgamma': Fr(1)}            # lgamma: 8 ulp of max(|result|, 1)
+# functions that take part in the path-agreement clause only (no kernel or continuity clause): tgamma, bound 16 ulp frozen
+# here (DESIGN 8.6).  Its cells also carry the intermediate-overflow rule (seeded change C11-7).
+PATHS_ONLY = {'tgamma': (16, 16)}
 # erf / erfc in double: C11 leaves the bound to this table; 128 ulp resp. 2^16 ulp are what the documented kernels
 # (erfc2 on [0.65, 2.2], erfc3 on [2.2, 6]) deliver: established method error 68 ulp resp. 4.0e4 ulp at x = 2.2 (DESIGN 8.6)
 ERFC = {'erf': (Fr(6), Fr(6)), 'erfc': (Fr(73, 8), Fr(53, 2))}          # analysed up to this argument (float, double): beyond, erfc is below 4*MIN / erf is 1
@@ -731,8 +734,8 @@ def analyse(job):
             out['res'].append((key, 'mismatch', {'why': 'only %d pieces analysed' % len(okc)}))
         else:
             out['res'].append((key, 'ok', summary))
-    for fn in (sorted(CONT) if group == 'paths' else ()):
-        bound = CONT[fn][0 if bits == 32 else 1]
+    for fn in (sorted(list(CONT) + list(PATHS_ONLY)) if group == 'paths' else ()):
+        bound = (CONT.get(fn) or PATHS_ONLY[fn])[0 if bits == 32 else 1]
         if bound is None:
             continue
         key = 'paths|%s|%s|%s' % (fn, tn, cfgname)
@@ -747,7 +750,11 @@ def analyse(job):
         bad = [q for q in pr['cells'] if not q['ok']]
         summary = {'paths': pr['paths'], 'cells': [(q['x'], q['paths'], round(q['spread_ulp'], 3)) for q in pr['cells']], 'ulp': max([q['spread_ulp'] for q in pr['cells']] or [0.0]), 'n_cells': len(pr['cells']),
                    'threshold_spread_ulp': float(2 * thr), 'kernel_rel_err': 0.0, 'const_rel_err': 0.0, 'dropped_paths': pr['dropped_paths'], 'skipped': pr['skipped'][:4]}
-        if bad:
+        if pr.get('overflow_cells'):
+            summary['overflow_cell'] = pr['overflow_cells'][0]
+            summary['n_overflow_cells'] = len(pr['overflow_cells'])
+            out['res'].append((key, 'bad', summary))
+        elif bad:
             summary['bad_cell'] = max(bad, key=lambda q: q['spread_ulp'])
             out['res'].append((key, 'bad', summary))
         else:
@@ -911,6 +918,11 @@ def run_for(pid, bits, a):
                 rows.append(dict(d, obligation=key))
                 if key.startswith('paths|'):
                     npaths += d.get('n_cells', 0)
+                    if st == 'bad' and 'overflow_cell' in d:
+                        b = d['overflow_cell']
+                        r.violation(key, 'intermediate overflow: for a lane holding x = %s (control path %s) the result is the finite normal value %.6g, but an intermediate %s on the lane\'s data path has magnitude 1e%s, beyond the largest finite number of the format: the machine computes inf there (source %s)' % (
+                            b['x_exact'] if len(b['x_exact']) < 40 else b['x'], b['path'] or '(fall-through)', b['value'], b['op'], b['log10_magnitude'], b['source'] or '?'), dict(d, obligation=key))
+                        continue
                     if st == 'bad':
                         b = d['bad_cell']
                         r.violation(key, 'for a lane holding x = %s the control paths %s and %s (which one runs depends on the OTHER lanes of the batch) give values %.17g and %.17g (read as real functions): %.4g ulp apart, more than twice the bound %s + %s ulp, so on one of them the lane is further than the bound from the function' % (
